@@ -901,6 +901,7 @@ func unop(fr *frame, instr *ssa.UnOp, x value) value {
 		if x.(*value) == nil {
 			fr.runtimePanic("runtime error: invalid memory address or nil pointer dereference")
 		}
+		fr.raceRead(x.(*value))
 		return load(mustDeref(instr.X.Type()), x.(*value))
 	case token.NOT:
 		return !x.(bool)
